@@ -29,7 +29,8 @@ ASSUMPTIONS = ['my scanner (vf/asn/lexer.py) defines the token sequence; layouts
                'lone CR / VT / FF are not used as line ends']
 REPORT = ['texts', 'layouts', 'evaluations', 'layouts_discarded_by_rescan', 'multiword_gaps_varied', 'error_probes',
           'error_probe_layouts', 'twin_line_comparisons', 'literal_probe_layouts']
-FLOORS = {'quick': {'layouts': 800, 'error_probe_layouts': 300}, 'thorough': {'layouts': 8000}}
+FLOORS = {'quick': {'layouts': 800, 'error_probe_layouts': 300},
+          'thorough': {'layouts': 3200, 'error_probe_layouts': 1200}}
 TIMEOUT = {'quick': 1800, 'thorough': 14000}
 
 LITERAL_PROBES = [
@@ -48,7 +49,7 @@ def shards(tier):
 def params(tier):
     if tier == 'quick':
         return {'generated': 5, 'fixtures': 2, 'layouts': 5, 'errors': 2, 'max_fixture_bytes': 9000}
-    return {'generated': 14, 'fixtures': 5, 'layouts': 10, 'errors': 3, 'max_fixture_bytes': 60000}
+    return {'generated': 15, 'fixtures': 3, 'layouts': 8, 'errors': 3, 'max_fixture_bytes': 13500}
 
 
 def profile(tier):
